@@ -42,17 +42,46 @@ def impl_case(case):
     for m in mons:
         m.start(im)
     outs = []
-    for o in case["ops"]:
-        o = tuple(o)
+
+    def run_op(o):
         trk.before(o)
         for m in mons:
             m.before(im, o, trk)
         start = len(im.log)
-        outs.append(im.op(o))
+        out = im.op(o)
         events = im.log[start:]
         for m in mons:
             m.after(im, o, events, trk)
         trk.after(o)
+        return out
+
+    for o in case["ops"]:
+        o = tuple(o)
+        if o[0] == "save_during":
+            # a periodic save during which (after the nodes were serialised, before the new file is
+            # renamed into place) another op is handled.  The monitors see the linearisation the
+            # property demands - ("save",) then the inner op - with the inner hooks run at the moment
+            # the inner op really executes.
+            span = []
+
+            def nested(inner, span=span):
+                span.append(len(im.log))
+                run_op(inner)
+                span.append(len(im.log))
+            im.nested = nested
+            sv = ("save",)
+            trk.before(sv)
+            for m in mons:
+                m.before(im, sv, trk)
+            start = len(im.log)
+            outs.append(im.op(o))
+            a, b = span if span else (len(im.log), len(im.log))
+            events = im.log[start:a] + im.log[b:]
+            for m in mons:
+                m.after(im, sv, events, trk)
+            im.nested = None
+            continue
+        outs.append(run_op(o))
     for m in mons:
         m.end(im, trk)
     viol = [(m.name, k, w) for m in mons for (k, w) in m.violations]
@@ -77,8 +106,24 @@ def model_lines(case):
     orc = oracles.for_payloads(strs)
     if orc:
         lines.append("orc " + orc)
-    lines += [gwrun.op_line(tuple(o)) for o in case["ops"]]
+    for o in case["ops"]:
+        o = tuple(o)
+        if o[0] == "save_during":     # the model runs the linearisation: save tick, then the inner op
+            lines += ["save", gwrun.op_line(tuple(o[1]))]
+        else:
+            lines.append(gwrun.op_line(o))
     return lines
+
+
+def pick_outputs(case, lines, outs):
+    """Model output lines aligned with case['ops'] (for save_during: the output of the inner op)."""
+    width = [2 if tuple(o)[0] == "save_during" else 1 for o in case["ops"]]
+    body = outs[len(lines) - sum(width):]
+    res, k = [], 0
+    for w in width:
+        k += w
+        res.append(body[k - 1])
+    return res
 
 
 def lines_chunk(chunk):
@@ -99,11 +144,13 @@ def run_all(ctx, cases):
     model = [None] * len(cases)
     if ctx.model is not None:
         outs = ctx.model.sessions(mlines)
+        raw = outs
         for i, (ls, o) in enumerate(zip(mlines, outs)):
-            skip = len(ls) - len(cases[i]["ops"])
-            model[i] = o[skip:]
-    recs = [{"case": c, "impl": io[0], "viol": io[1], "stats": io[2], "model": mo, "mlines": ml}
-            for c, io, mo, ml in zip(cases, impl, model, mlines)]
+            model[i] = pick_outputs(cases[i], ls, o)
+    else:
+        raw = [None] * len(cases)
+    recs = [{"case": c, "impl": io[0], "viol": io[1], "stats": io[2], "model": mo, "mlines": ml, "mraw": rw}
+            for c, io, mo, ml, rw in zip(cases, impl, model, mlines, raw)]
     return recs
 
 
@@ -142,7 +189,7 @@ def run_cases(ctx, res, cases, monitors, scope, tag="gw"):
     if ctx.model is not None and not ctx.searching and recs:
         k = min(len(recs), 6)
         n, ok, lg = core.coq_crosscheck([r["mlines"] for r in recs[:k]],
-                                        [["ok"] * (len(r["mlines"]) - len(r["model"])) + r["model"] for r in recs[:k]],
+                                        [r["mraw"] for r in recs[:k]],
                                         xtag or tag)
         res.extra["extraction_crosschecks"] = n
         if not ok:
@@ -156,8 +203,8 @@ def replay_case(ctx, case):
     outs, viol, stats = impl_case(c)
     out = {"cfg": c["cfg"], "n_ops": len(c["ops"]), "monitor_violations": viol, "violates": bool(viol)}
     if ctx.model is not None:
-        mo = ctx.model.sessions([model_lines(c)])[0]
-        mo = mo[len(mo) - len(c["ops"]):]
+        ml = model_lines(c)
+        mo = pick_outputs(c, ml, ctx.model.sessions([ml])[0])
         d = diff(c, outs, mo, ALL)
         out["model_vs_impl_first_diff"] = d
     return out
